@@ -1,7 +1,7 @@
 //! Command line argument parsing and initial build invocation.
 
 use crate::{
-    load, progress::Progress, progress_dumb::DumbConsoleProgress,
+    densemap::Index, load, progress::Progress, progress_dumb::DumbConsoleProgress,
     progress_fancy::FancyConsoleProgress, terminal, trace, work,
 };
 use anyhow::anyhow;
@@ -69,7 +69,15 @@ fn build(args: BuildArgs) -> anyhow::Result<Option<usize>> {
 
     if !args.targets.is_empty() {
         for name in &args.targets {
-            let Some(target) = work.lookup(name) else {
+            let mut target = work.lookup(name);
+            if let Some(id) = target {
+                // A name that only the build log knows (say, the output of a
+                // step that was removed from the manifest) is not a target.
+                if id.index() >= state.manifest_files {
+                    target = None;
+                }
+            }
+            let Some(target) = target else {
                 if args.options.adopt {
                     // cmake invokes -t restat with paths that don't exist
                     // https://github.com/evmar/n2/issues/142
